@@ -149,6 +149,62 @@ def rule_wiring(ctx: Ctx):
     rep.floor("C15.events", "paths of add_event with a real id and transitions", n, 2)
 
 
+def rule_attributes(ctx: Ctx):
+    """C15.events: how each kind of class attribute becomes states/events (one dispatch per kind)."""
+    rep = ctx.rep
+    fn = ctx.fn("StateMachineMetaclass.add_from_attributes")
+    cls_ = fn.params[0]
+    seen = {}
+    for p in ctx.paths(fn, inline=None, exc_edges="none", unroll=1):
+        evs = p.events
+        its = [e for e in evs if e.kind == "iter" and e.x.get("loop") == "for"]
+        if not its:
+            continue
+        if xshow(its[0].term, evs) != f"{fn.params[1]}.items()":
+            rep.violation("C15.events", its[0].loc(), "the metaclass does not visit the class attributes in declaration order", fn.key, norm_stmt(its[0].node))
+            continue
+        elem = show(its[0].x["elem"])
+        key, val = f"{elem}[0]", f"{elem}[1]"
+        facts = {}
+        for b in p.of("branch"):
+            facts[xshow(b.term, evs)] = b.x["taken"]
+        calls = [e for e in p.calls() if isinstance(e.term.func, ast.Attribute) and show(e.term.func.value) == cls_]
+        kinds = [k_ for k_, v in facts.items() if v and k_.startswith("isinstance(")]
+        for k_ in kinds:
+            seen.setdefault(k_, []).append([xshow(c.term, evs) for c in calls])
+    def has(kind_sub, pred):
+        for k_, lists in seen.items():
+            if kind_sub in k_:
+                return any(any(pred(c) for c in calls) for calls in lists)
+        return False
+    elem = None
+    checks = [
+        ("States)", lambda c: "._add_states_from_dict(" in c, "a States collection registers each of its states"),
+        (", State)", lambda c: ".add_state(" in c and c.count("[0]") >= 1 and "[1])" in c, "a State attribute is registered under the attribute's name"),
+        ("(Transition, TransitionList))", lambda c: ".add_event(event=Event(transitions=" in c and "id=" in c and "name=" in c,
+         "a transition (list) attribute becomes an event named after the attribute, carrying those transitions"),
+        ("(Event,))", lambda c: ".add_event(event=Event(transitions=" in c and "._transitions" in c and "old_event=" in c and ".name" in c,
+         "an explicit Event attribute is re-created under the attribute's name with its transitions and display name, and replaces the placeholder"),
+    ]
+    for sub, pred, what in checks:
+        rep.check(has(sub, pred), "C15.events", fn.loc(), what, fn.key, f"dispatch for `{sub}`: {[v[0] for k_, v in seen.items() if sub in k_][:1]}")
+    rep.floor("C15.events", "attribute kinds dispatched by add_from_attributes", len(seen), 4)
+    ur = ctx.fn("StateMachineMetaclass._update_event_references")
+    ok_replace = ok_raise = False
+    for p in ctx.paths(ur, inline=None, exc_edges="none", unroll=1):
+        evs = p.events
+        for e in p.calls():
+            if isinstance(e.term.func, ast.Attribute) and e.term.func.attr == "_replace":
+                its = [i for i in evs[: e.idx] if i.kind == "iter"]
+                guard = [b for b in evs[: e.idx] if b.kind == "branch" and "match(" in xshow(b.term, evs) and b.x["taken"]]
+                ok_replace = ok_replace or (len(its) >= 3 and bool(guard) and len(e.term.args) == 2)
+        if p.kind == "raise" and "InvalidDefinition" in xshow(p.value, evs):
+            ok_raise = True
+    rep.check(ok_replace, "C15.events", ur.loc(), "placeholder events are replaced by the named event on every transition of every state that matches them",
+              ur.key, "no guarded _replace(old, new) inside the states/transitions loops")
+    rep.check(ok_raise, "C15.events", ur.loc(), "an event that never got an id is an InvalidDefinition", ur.key, "no InvalidDefinition path")
+
+
 def rule_copy(ctx: Ctx, rule: str = "C15.any"):
     """The per-state copies made for from_.any() keep every meaning-bearing field of each callback spec
     (guard polarity, event scoping, priority ...)."""
@@ -358,4 +414,4 @@ def rule_enum(ctx: Ctx):
             rep.check(ok, "C15.enum", sfd.loc(), "each (id, state) of a States collection is added under its id", sfd.key, calls[0].show())
 
 
-RULES = [rule_tofrom, rule_any, rule_copy, rule_or, rule_events, rule_wiring, rule_enum]
+RULES = [rule_tofrom, rule_any, rule_copy, rule_or, rule_events, rule_wiring, rule_attributes, rule_enum]
